@@ -442,6 +442,7 @@ class RF24Mesh(RF24MeshNoMaster):
                     self.set_address(
                         buffer[index],  # skip index + 1 as it's only used for padding
                         struct.unpack("<H", buffer[index + 2 : index + 4])[0],
+                        True,  # like the JSON branch: an address belongs to 1 ID only
                     )
 
     def print_details(self, dump_pipes: bool = False, network_only: bool = False):
